@@ -17,6 +17,71 @@ from harness import irmachine as M
 NOUT = 6
 
 
+def c_function_text(csrc: str, name: str) -> str:
+    i = csrc.find(f" {name}(")
+    if i < 0:
+        return ""
+    i = csrc.rfind("\n", 0, i) + 1
+    j = csrc.find("\n}\n", i)
+    return csrc[i: j + 3 if j >= 0 else i + 3000][:4000]
+
+
+def run_forked(order, envs, call, deadline):
+    """Run call(j, env, which) for every kernel/env/back end in a forked child; returns
+    ({(j, e, which): result}, None) or (..., (j, e, which, "timeout"|"crash")) for the call that never returned."""
+    import select
+    import time
+
+    r, w = os.pipe()
+    pid = os.fork()
+    if pid == 0:
+        os.close(r)
+        try:
+            with os.fdopen(w, "w") as f:
+                for (j, e, which) in order:
+                    f.write(json.dumps({"begin": [j, e, which]}) + "\n")
+                    f.flush()
+                    f.write(json.dumps({"res": [j, e, which], "val": call(j, envs[e], which)}) + "\n")
+                    f.flush()
+        finally:
+            os._exit(0)
+    os.close(w)
+    buf = b""
+    t_end = time.time() + deadline
+    timed_out = False
+    while True:
+        left = t_end - time.time()
+        if left <= 0:
+            timed_out = True
+            break
+        ready, _, _ = select.select([r], [], [], min(left, 5.0))
+        if ready:
+            chunk = os.read(r, 1 << 16)
+            if not chunk:
+                break
+            buf += chunk
+    if timed_out:
+        os.kill(pid, 9)
+    os.close(r)
+    _, status = os.waitpid(pid, 0)
+    results, begun = {}, None
+    for line in buf.decode().splitlines():
+        try:
+            o = json.loads(line)
+        except Exception:
+            continue
+        if "begin" in o:
+            begun = tuple(o["begin"])
+        else:
+            results[tuple(o["res"])] = o["val"]
+            begun = None
+    if timed_out or begun is not None:
+        if begun is None:
+            return results, None
+        return results, (begun[0], begun[1], begun[2], "timeout" if timed_out else "crash")
+    return results, None
+
+
 def main():
     import cffi
     import llvmlite.binding as llvm
@@ -139,20 +204,44 @@ def main():
             continue
         cases, metas, defs = [], [], []
         rcases, rmetas, rdefs = [], [], []
+        # native code runs in a forked child under a deadline: a kernel that loops forever or crashes (only
+        # possible when a back end mis-prints a loop condition / an access) is reported, not waited for
+        fptrs = [ffi.cast(sig, engine.get_function_address(f"kern{mno + j}")) for j in range(len(fns))]
+
+        def call(j, env, which):
+            xi, yi, xf, yf = env
+            p = ffi.new("int32_t[]", P)
+            q = ffi.new("double[]", Q)
+            o = ffi.new("double[]", [0.0] * NOUT)
+            io = ffi.new("int32_t[]", [0] * NOUT)
+            f = fptrs[j] if which == "llvm" else getattr(lib, f"kern{mno + j}")
+            rc = f(xi, yi, xf, yf, p, q, o, io)
+            return [rc, [float(x).hex() for x in o], list(io)]
+
+        order = [(j, e, which) for j in range(len(fns)) for e in range(len(envs)) for which in ("llvm", "c")]
+        native, start, nstuck = {}, 0, 0
+        while start < len(order) and nstuck < 3:
+            got, stuck = run_forked(order[start:], envs, call, deadline=40)
+            native.update(got)
+            if stuck is None:
+                break
+            nstuck += 1
+            j, e, which, how = stuck
+            index.setdefault("hangs", []).append({"kernel": mno + j, "env": list(envs[e]), "backend": which, "how": how,
+                                                  "ir": repr(fns[j].body), "kind": "expr", "assignment": f"expr-stream kernel {mno + j}",
+                                                  "c_function": c_function_text(csrc, f"kern{mno + j}") if which == "c" else None})
+            start = order.index((j, e, which)) + 1
         for j, fn in enumerate(fns):
             k = mno + j
             defs.append(f"Definition g{k} := {D.coq_function(fn)}.")
-            fptr = ffi.cast(sig, engine.get_function_address(f"kern{k}"))
-            for (xi, yi, xf, yf) in envs:
+            for e, (xi, yi, xf, yf) in enumerate(envs):
                 res = []
                 for which in ("llvm", "c"):
-                    p = ffi.new("int32_t[]", P)
-                    q = ffi.new("double[]", Q)
-                    o = ffi.new("double[]", [0.0] * NOUT)
-                    io = ffi.new("int32_t[]", [0] * NOUT)
-                    f = fptr if which == "llvm" else getattr(lib, f"kern{k}")
-                    rc = f(xi, yi, xf, yf, p, q, o, io)
-                    res.append((rc, [float(x).hex() for x in o], list(io), [float(x) for x in o]))
+                    r = native.get((j, e, which))
+                    if r is not None:
+                        res.append((r[0], r[1], r[2], [float.fromhex(x) for x in r[1]]))
+                if len(res) < 2:
+                    continue  # not run: the child was stopped before this call
                 meta = {"kernel": k, "env": [xi, yi, xf, yf], "ir": repr(fn.body), "c": None, "kind": "expr",
                         "assignment": f"expr-stream kernel {k}", "formats": {}, "inputs": {"env": [xi, yi, xf, yf]}}
                 if res[0][:3] != res[1][:3]:
